@@ -84,6 +84,59 @@ func cnfGens() []Gen {
 			p := h + r.Intn(2)
 			return makeCnfCase(r, shuffleCnf(r, genPigeon(p, h)), 0)
 		}},
+		{Name: "implication-chain", Weight: 3, Make: func(r *Rng, tier string) interface{} {
+			// x1 -> x2 -> ... -> xL written against the direction of propagation, the unit last:
+			// parse-time simplification needs about L passes; extra clauses over chain variables
+			// become unit, satisfied or empty on the way
+			L := r.Range(4, 40)
+			var cnf [][]int
+			for k := r.Range(0, 4); k > 0; k-- {
+				a, b := r.Range(1, L), r.Range(1, L)
+				cl := []int{-a, -b}
+				if r.Bool() {
+					cl = []int{-a, r.Range(1, L+2)}
+				}
+				if r.Chance(1, 3) {
+					cl = append(cl, -r.Range(1, L))
+				}
+				cnf = append(cnf, cl)
+			}
+			for i := L - 1; i >= 1; i-- {
+				cnf = append(cnf, []int{-i, i + 1})
+			}
+			if r.Chance(1, 4) {
+				cnf = shuffleCnf(r, cnf)
+			}
+			cnf = append(cnf, []int{1})
+			c := makeCnfCase(r, cnf, r.Intn(2))
+			if c.Front == "dimacs" && r.Bool() {
+				c.Front, c.Text = "slicenb", ""
+			}
+			return c
+		}},
+		{Name: "wide-clauses", Weight: 1, Make: func(r *Rng, tier string) interface{} {
+			// a 3-SAT part near the threshold plus four clauses of more than a thousand literals
+			// (x1 .. xW, +-a, +-b): every x is decided false before the conflict, so the learned
+			// clauses are as wide as the input clauses
+			ny := r.Range(18, 30)
+			cnf := genKSat(r, ny, int(float64(ny)*4.2)+r.Range(-3, 3), 3)
+			a, b := ny+1, ny+2
+			W := r.Range(1010, 1150)
+			xs := make([]int, W)
+			for i := range xs {
+				xs[i] = ny + 3 + i
+			}
+			for _, sa := range []int{1, -1} {
+				for _, sb := range []int{1, -1} {
+					cl := append(append([]int{}, xs...), sa*a, sb*b)
+					cnf = append(cnf, cl)
+				}
+			}
+			c := makeCnfCase(r, cnf, 0)
+			c.Front, c.Text, c.NbVars = "slice", "", maxVarCnf(cnf)
+			c.Certified = true
+			return c
+		}},
 		{Name: "parity", Weight: 5, Make: func(r *Rng, tier string) interface{} {
 			return makeCnfCase(r, shuffleCnf(r, genParity(r, r.Range(3, 9))), 0)
 		}},
@@ -93,7 +146,7 @@ func cnfGens() []Gen {
 func init() {
 	register(&Prop{
 		ID: "C01",
-		Rule: "CNF formulas from seeded generators (messy tiny/small formulas with empty, unit, duplicate-literal, tautological and repeated clauses and unused declared variables; uniform 2/3-SAT near threshold with 5..70 variables; pigeonhole; parity chains), each through one front-end (ParseSlice / ParseSliceNb / ParseCNF with free DIMACS layout) and one configuration (certificate on/off x learned-clause limit default/4/16). A case is non-trivial when parsing left the status undetermined so that the CDCL search ran; distinct = distinct (formula, front-end, configuration).",
+		Rule: "CNF formulas from seeded generators (messy tiny/small formulas with empty, unit, duplicate-literal, tautological and repeated clauses and unused declared variables; uniform 2/3-SAT near threshold with 5..70 variables; pigeonhole; parity chains; implication chains of 4..40 steps written against the direction of propagation; a 3-SAT part plus four clauses of more than a thousand literals), each through one front-end (ParseSlice / ParseSliceNb / ParseCNF with free DIMACS layout) and one configuration (certificate on/off x learned-clause limit default/4/16). A case is non-trivial when parsing left the status undetermined so that the CDCL search ran; distinct = distinct (formula, front-end, configuration).",
 		Gens:    cnfGens(),
 		Run:     func(o *Oracle, d json.RawMessage, oc *Outcome) { runCnfCase(o, d, oc, "C01") },
 		Cases:   defCases(2500, 40000),
@@ -572,4 +625,40 @@ func dedupTrail(a *solver.VerifAnalysis) *solver.VerifAnalysis {
 		b.Assumed = append(b.Assumed, a.Assumed[i])
 	}
 	return &b
+}
+
+// sampleAnalyses registers the conflict-analysis hook on s and collects the first analyses of
+// the run plus a thin sample of the later ones.
+func sampleAnalyses(s *solver.Solver, first, every, max int) *[]solver.VerifAnalysis {
+	var as []solver.VerifAnalysis
+	n := 0
+	s.VerifSetAnalyzeHook(func(a solver.VerifAnalysis) {
+		n++
+		if (n <= first || n%every == 0) && len(as) < max {
+			as = append(as, a)
+		}
+	})
+	return &as
+}
+
+// analysisMirror compares sampled analyses with the Lean mirror of learnClause / minimizeLearned
+// (GS.Analyze): same learned clause, unit or top-level verdict; no antecedent left on an
+// unassigned variable.
+func analysisMirror(o *Oracle, oc *Outcome, as []solver.VerifAnalysis, entry string) {
+	for i := range as {
+		a := &as[i]
+		if len(a.Dangling) > 0 {
+			oc.Fail("corr", "analyze-invariant", entry, "at conflict %d the unassigned variables %v still have an antecedent recorded", i, a.Dangling)
+			return
+		}
+		q, want := analysisQuery(a)
+		oc.Corr++
+		if got := o.Ask(q); got != want {
+			oc.Fail("corr", "analyze-mirror", entry, "learnClause returned %q, the Lean mirror GS.Analyze %q on %s", want, got, q)
+			return
+		}
+	}
+	if len(as) > 0 {
+		oc.Tag("analyses-compared")
+	}
 }
